@@ -50,6 +50,10 @@ def strategy(tier):
                                't': st.integers(0, 5), 'ns': ns}),
         st.fixed_dictionaries({'op': st.just('connect'),
                                't': st.integers(0, 5), 'ns': ns}),
+        # the connect handler enters a room and then refuses the client
+        st.fixed_dictionaries({'op': st.just('connect'),
+                               't': st.integers(0, 5), 'ns': ns,
+                               'refuse': st.just(True)}),
         st.fixed_dictionaries({'op': st.just('enter'), 'c': ci,
                                'room': _room_ref()}),
         st.fixed_dictionaries({'op': st.just('leave'), 'c': ci,
@@ -98,6 +102,7 @@ def strategy(tier):
     return st.fixed_dictionaries({
         'aio': st.booleans(),
         'ntrans': st.integers(2, 6),
+        'always_connect': st.booleans(),
         # how each transport frames what it sends (None: not emulated)
         'framing': st.lists(st.sampled_from([None, 'ws', 'polling']),
                             min_size=6, max_size=6),
@@ -155,7 +160,8 @@ class Model:
 
 
 def check_case(case):
-    w = World(aio=case['aio'], namespaces=NSS)
+    w = World(aio=case['aio'], namespaces=NSS,
+              always_connect=case.get('always_connect', False))
     try:
         return _run(case, w)
     finally:
@@ -181,8 +187,20 @@ def _run(case, w):
     else:
         def on_disc(sid, reason):
             d_hit()
+    def mk_conn(n):
+        if case['aio']:
+            async def on_conn(sid, environ, auth=None):
+                if auth == {'refuse': 1}:
+                    await sio.enter_room(sid, ROOMS[0], namespace=n)
+                    return False
+        else:
+            def on_conn(sid, environ, auth=None):
+                if auth == {'refuse': 1}:
+                    sio.enter_room(sid, ROOMS[0], namespace=n)
+                    return False
+        return on_conn
     for n in NSS:
-        sio.on('connect', (lambda sid, environ, auth=None: None), namespace=n)
+        sio.on('connect', mk_conn(n), namespace=n)
         sio.on('disconnect', on_disc, namespace=n)
     for i_ in range(case['ntrans']):
         t_ = w.open()
@@ -243,6 +261,18 @@ def _run(case, w):
                 continue
             ns = ns_of(op['ns'])
             dup = w.client_on(t, ns) is not None
+            if op.get('refuse') and ns in NSS and not dup:
+                ci, pkts = w.connect(t, ns, {'refuse': 1})
+                if ci is not None:
+                    # always_connect: CONNECT, then DISCONNECT
+                    if [p['type'] for p in pkts] != [wire.CONNECT,
+                                                     wire.DISCONNECT]:
+                        raise Violation('connect-refusal-shape', repr(pkts))
+                    w.mark_dead(ci)
+                elif [p['type'] for p in pkts] != [wire.CONNECT_ERROR]:
+                    raise Violation('connect-refusal-shape', repr(pkts))
+                labels['refused_after_entering_a_room'] = True
+                continue
             ci, pkts = w.connect(t, ns)
             served = ns in NSS
             if served and not dup:
